@@ -235,6 +235,20 @@ def rule_r5(ctx):
             ctx.r.ok(rid, "dequeue only when no stop is pending (so the wait loop guarantees a non-empty queue)", h.loc(n.ast))
         else:
             ctx.r.violation(rid, key_of(h, None, "dequeue-ignores-stop"), "worker dequeues without having excluded a pending stop request: popleft on an empty queue / over-stopping", h.loc(n.ast))
+    # the idle wait re-tests its predicate in a loop (a woken worker may find the queue already emptied by another)
+    hw = [c for c in ast.walk(h.node) if isinstance(c, ast.Call) and dotted(c.func) == "self.queue_cv.wait"]
+    if not hw:
+        ctx.r.violation(rid, key_of(h, None, "no-idle-wait"), "handler_thread never waits on queue_cv", h.loc())
+    for w in hw:
+        loop = None
+        for st in ast.walk(h.node):
+            if isinstance(st, ast.While) and any(x is w for x in ast.walk(st)) and not isinstance(st.test, ast.Constant):
+                loop = st
+        if loop is not None and mentions(loop.test, "self.queue") and mentions(loop.test, "self.stop_count"):
+            ctx.r.ok(rid, "idle wait sits in a while loop re-testing queue and stop_count", h.loc(w))
+        else:
+            ctx.r.violation(rid, key_of(h, None, "idle-wait-not-retested"),
+                            "the idle wait is not inside a while loop that re-tests `queue` and `stop_count`: a woken worker whose task was taken by another pops from an empty queue and dies", h.loc(w))
     sh = p.func("task.ThreadedTaskDispatcher.shutdown")
     waits = [c for c in ast.walk(sh.node) if isinstance(c, ast.Call) and dotted(c.func) == "self.thread_exit_cv.wait"]
     for w in waits:
@@ -263,6 +277,11 @@ def rule_r6(ctx):
     rv = run[0].ast.targets[0].id
     ctx.r.ok(rid, "%s = len(threads) - stop_count" % rv, f.loc(run[0].ast))
     inc = [n for n in g.nodes if n.kind == "stmt" and isinstance(n.ast, ast.AugAssign) and dotted(n.ast.target) == "self.stop_count"]
+    over = [n for n in g.nodes if n.kind == "stmt" and isinstance(n.ast, ast.Assign) and any(dotted(t) == "self.stop_count" for t in n.ast.targets)]
+    for n in over:
+        ctx.r.violation(rid, key_of(f, None, "stop-count-overwritten"), "stop_count is overwritten (%s): stop requests still pending from an earlier resize are forgotten (running is already net of them)" % norm(n.ast), f.loc(n.ast))
+    if not inc and not over:
+        ctx.r.violation(rid, key_of(f, None, "no-stop-request"), "set_thread_count never raises stop_count: the pool cannot shrink", f.loc())
     for n in inc:
         v = n.ast.value
         ok = isinstance(n.ast.op, ast.Add) and isinstance(v, ast.BinOp) and isinstance(v.op, ast.Sub) and dotted(v.left) == rv and dotted(v.right) == cnt
@@ -332,6 +351,8 @@ selftest = [
     M("shutdown-cancel-unlocked", "task.py", "            if cancel_pending:\n                # Cancel remaining tasks.\n                queue = self.queue\n                if len(queue) > 0:\n                    self.logger.warning(\"Canceling %d pending task(s)\", len(queue))\n                while queue:\n                    task = queue.popleft()\n                    task.cancel()\n                self.queue_cv.notify_all()\n                return True\n        return False", "        if cancel_pending:\n            queue = self.queue\n            while queue:\n                task = queue.popleft()\n                task.cancel()\n            return True\n        return False", None),
     M("dequeue-when-stopping", "task.py", "                if self.stop_count > 0:\n                    self.active_count -= 1\n                    self.stop_count -= 1\n                    self.threads.discard(thread_no)\n                    self.thread_exit_cv.notify()\n                    break\n\n                task = self.queue.popleft()", "                task = self.queue.popleft()\n                if self.stop_count > 0:\n                    self.active_count -= 1\n                    self.stop_count -= 1\n                    self.threads.discard(thread_no)\n                    self.thread_exit_cv.notify()\n                    break\n", None),
     M("worker-drops-task", "task.py", "            try:\n                task.service()\n            except BaseException:", "            try:\n                if thread_no % 2:\n                    task.service()\n            except BaseException:", "R3"),
+    M("stop-count-assigned", "task.py", "                self.stop_count += running - count\n", "                self.stop_count = running - count\n", "R6"),
+    M("idle-wait-if", "task.py", "                while not self.queue and self.stop_count == 0:", "                if not self.queue and self.stop_count == 0:", "R5"),
     T("with-queue_cv", "task.py", "    def add_task(self, task):\n        with self.lock:", "    def add_task(self, task):\n        with self.queue_cv:"),
     T("popleft-via-alias", "task.py", "                task = self.queue.popleft()\n            try:", "                queue = self.queue\n                task = queue.popleft()\n            try:"),
     T("count-gt-swapped", "task.py", "            if running > count:", "            if count < running:"),
